@@ -222,9 +222,25 @@ pub fn run_case(tier: &str, seed: u64, idx: u64) -> CaseOut {
         // (and writes to) the directory, so no other open may succeed.
         if round % 2 == 0 {
             use crate::director::COMPACTOR;
+            // start from a quiet database: a flush that is already pending would reach the gate
+            // while the writes below are still waiting for it
+            let quiet_deadline = std::time::Instant::now() + Duration::from_secs(10);
+            loop {
+                let p = owner.verif_probe();
+                if (!p.has_immutable_memtable && !p.background_compaction_scheduled) || std::time::Instant::now() > quiet_deadline {
+                    break;
+                }
+                std::thread::sleep(Duration::from_millis(1));
+                watch::tick();
+            }
             let gate = d.arm(COMPACTOR, "flush.before_build", 1);
             let rot0 = d.note_count("mem.rotate");
             for i in 0..2000u64 {
+                // a flush that was already pending may reach the gate at once; writing on would
+                // then wait for that very flush
+                if d.is_arrived(gate) {
+                    break;
+                }
                 counter += 1;
                 let k = format!("k{:03}", i % 40).into_bytes();
                 let v = format!("f{counter}-{}", "y".repeat(50)).into_bytes();
